@@ -99,7 +99,10 @@ def resolveLine (e : RExpr) (kind choice : String) : String :=
   | some b0 =>
     let b := toReal b0
     match kind with
-    | "rng" => "some"
+    | "rng" =>
+      (match rngMark e with
+       | some m => if m == "" then "some" else s!"some mark={m}"
+       | none => "none")
     | "dh" =>
       let d := Real.dhImpl b (dhSel choice)
       s!"some name={d.name} a={d.pubLen} b={d.privLen} c={d.dhLen}"
